@@ -9,7 +9,7 @@ use std::rc::Rc;
 
 /// Panic payload used by endpoints when a progress budget is exhausted (classified as livelock,
 /// not as a library panic).
-pub struct BudgetExceeded(pub &'static str);
+pub struct BudgetExceeded;
 
 #[derive(Clone, Copy, Debug)]
 pub struct IoEv {
@@ -102,6 +102,11 @@ impl World {
     pub fn pick<'a, T>(&self, xs: &'a [T]) -> &'a T {
         self.ch.borrow_mut().pick(xs)
     }
+    /// "one more element?" — list lengths are drawn as a run of continue-flags (0 = stop), so
+    /// that deleting one element's span of choices together with its flag is a valid shrink.
+    pub fn more(&self, have: u64, max: u64) -> bool {
+        have < max && self.chance(2, 3)
+    }
 
     pub fn fired(&self, kind: &'static str) {
         self.fired.borrow_mut().add(kind, 1);
@@ -173,7 +178,7 @@ impl World {
         }
         let b = self.budget.get();
         if b == 0 {
-            std::panic::panic_any(BudgetExceeded(ep));
+            std::panic::panic_any(BudgetExceeded);
         }
         if b != u64::MAX {
             self.budget.set(b - 1);
@@ -443,8 +448,6 @@ pub struct SimSeekRead {
     inj: Inject,
     name: &'static str,
     pub cuts: Rc<RefCell<Vec<usize>>>,
-    /// highest file offset (exclusive) ever requested by a read that reached the data
-    pub max_read_end: Rc<Cell<u64>>,
 }
 
 impl SimSeekRead {
@@ -457,7 +460,6 @@ impl SimSeekRead {
             inj: Inject::new(),
             name,
             cuts: Rc::new(RefCell::new(Vec::new())),
-            max_read_end: Rc::new(Cell::new(0)),
         }
     }
 }
